@@ -129,10 +129,10 @@ func genScenario(t *rapid.T) *modsim.Scenario {
 func runAndJudge(t interface {
 	Fatalf(string, ...any)
 }, sc *modsim.Scenario) *modsim.Result {
-	res, err := modsim.RunScenario(sc, 150*time.Second)
+	res, err := modsim.RunScenario(sc, 600*time.Second)
 	if errors.Is(err, modsim.ErrChildTimeout) {
 		b, _ := json.Marshal(sc)
-		t.Fatalf("C05-hang: lifecycle child did not terminate within 150 s (work items return within 30 ms of cancellation)\nscenario: %s", b)
+		t.Fatalf("C05-hang: lifecycle child did not terminate within 600 s (work items return within 30 ms of cancellation)\nscenario: %s", b)
 	}
 	if err != nil {
 		b, _ := json.Marshal(sc)
